@@ -64,9 +64,14 @@ def check(ctx, build=None):
         build = C.ensure_built("C01", ["translator"], need_harness=False, extra_go=gomod.EXTRA_GO)
     if not build.driver_ok:
         raise C.Infra("the Lean driver does not build; the interpreter is needed for C01")
+    ntests, nfailing, problems = k4.calibrate()
+    if problems:
+        raise C.Infra("K3 calibration of the reference interpreter against the repository's semantics suite failed: " + "; ".join(problems[:5]))
     scratch = C.scratch()
     found = False
     stats = collections.Counter()
+    stats["k3_tests_true"] = ntests
+    stats["k3_failing_tests"] = nfailing
     feats = collections.Counter()
     samples = []
     try:
